@@ -152,11 +152,9 @@ Definition record_answer (s : state) (r : N) (rn : run) (j : N) (ok : bool) : st
   set_run s r (Run (r_pledge rn) (r_member rn) (r_prop rn) (r_base rn) (r_rounds rn) (r_snap rn) asked ph).
 
 Definition err_matches (res err : N) : bool :=
-  match res with
-  | 0 => bool_decide (err = 0)
-  | 2 => bool_decide (err = 2)
-  | _ => bool_decide (err = 1) || bool_decide (err = 3) || bool_decide (err = 4)
-  end.
+  if bool_decide (res = 0) then bool_decide (err = 0)
+  else if bool_decide (res = 2) then bool_decide (err = 2)
+  else bool_decide (err = 1) || bool_decide (err = 3) || bool_decide (err = 4).
 
 (* [pmax p] is Config.MaxProposals of pledging node p (used once it arbitrates). *)
 Definition step (pmax : N -> nat) (s : state) (e : ev) : option state :=
@@ -200,24 +198,23 @@ Definition step (pmax : N -> nat) (s : state) (e : ev) : option state :=
              && bool_decide (j ∈ map vaddr (healthy (r_snap rn)))
              && bool_decide (j ∉ map fst (r_asked rn))
           then
-            match how with
-            | 0 | 2 =>
-                match juror_process s r j key with
-                | Some (vd', s') =>
-                    if bool_decide (vd = vd')
-                    then Some (record_answer s' r rn j (bool_decide (how = 0) && bool_decide (vd = VApprove)))
-                    else None
-                | None => None
-                end
-            | 1 => Some (record_answer s r rn j false)
-            | 3 =>
-                match s_jur s !! j with
-                | Some _ => if bool_decide (vd = VCtx) then Some (record_answer s r rn j false) else None
-                | None => None
-                end
-            | 4 => Some (record_answer (set_late s (s_late s ++ [(r, j, key)])) r rn j false)
-            | _ => None
-            end
+            if bool_decide (how = 0) || bool_decide (how = 2) then
+              match juror_process s r j key with
+              | Some (vd', s') =>
+                  if bool_decide (vd = vd')
+                  then Some (record_answer s' r rn j (bool_decide (how = 0) && bool_decide (vd = VApprove)))
+                  else None
+              | None => None
+              end
+            else if bool_decide (how = 1) then Some (record_answer s r rn j false)
+            else if bool_decide (how = 3) then
+              match s_jur s !! j with
+              | Some _ => if bool_decide (vd = VCtx) then Some (record_answer s r rn j false) else None
+              | None => None
+              end
+            else if bool_decide (how = 4)
+            then Some (record_answer (set_late s (s_late s ++ [(r, j, key)])) r rn j false)
+            else None
           else None
       | None => None
       end
